@@ -1,13 +1,18 @@
 """C09 -- timeouts fire exactly once, never early, and at the deadline.
 
+Evaluated on entry points with a stable identity (the public submit / submit_timeout, the timeout thread's
+target, the public f_timeout) with all private helpers inlined; no private helper is referred to by name.
+
 Decided:
-  R-DEADLINE  deadline = (clock read inside submit_timeout) + the timeout of this call; submit() passes the
-              executor's default; f_timeout passes the caller's timeout
-  R-PARTITION per job, in this order: done -> dropped; overdue (deadline < now, with `now` a plain clock read)
-              -> cancel list only; else -> pending list only.  The job list becomes exactly the pending part (so a
-              job is attempted at most once); the cancel loop walks exactly the overdue part, one cancel() each
-  R-SLEEP     the loop sleeps max(min(pending deadlines) - now, 0), or without bound when nothing is pending
-  R-WAKE-P    a new job wakes the thread (so the sleep is recomputed)      [shared with C03]
+  R-DEADLINE  deadline = (clock read inside the submit path) + the timeout of this call; submit() passes the
+              executor's default; f_timeout passes the caller's timeout; the job record links the returned future
+              with this submission's delegate future and is appended under the job lock
+  R-PARTITION per job, on every iteration of the timeout thread: a job is put on the cancel side only when
+              `deadline < now` (or <=) was established against an unmodified clock reading; cancel side and
+              keep side are exclusive; finished jobs are dropped; the job list becomes exactly the keep side
+              (so a job is attempted at most once); exactly one cancel() per job of the cancel side
+  R-SLEEP     the thread sleeps max(min(kept deadlines) - now, 0), or without bound when nothing is kept
+  R-WAKE-*    a new job wakes the thread; the thread re-reads its list between clear() and the next wait()
 Not decided: 'at the deadline rather than later' as a statement about real time / scheduling latency.
 """
 from ..core import where_of, trace_of
@@ -15,7 +20,11 @@ from ..interp import fmt, contains, subterms
 from ..model import AnalysisError
 from .. import q
 from .. import wake
+from ..roles import std_inline, bound, is_identity, closure_fn, container_of
 from .c07 import norm_cmp
+
+SELF = ("param", "self")
+DEPTH = 6
 
 
 def is_clock(t):
@@ -24,170 +33,136 @@ def is_clock(t):
 
 def check(ctx, rep):
     prog = ctx.prog
-    rep.rule("R-DEADLINE", "Job.deadline = monotonic() + timeout where the clock is read in submit_timeout and timeout is that call's parameter; the job links the returned future and this submission's delegate future")
-    rep.rule("R-PARTITION", "_partition_jobs: done jobs are dropped first; a job is overdue only when `deadline < now` (or <=) was established against an unmodified clock reading; overdue and pending are exclusive; _jobs := pending; exactly one cancel() per overdue job")
-    rep.rule("R-SLEEP", "wait time = max(min(deadline of every pending job) - monotonic(), 0), None when no job is pending")
+    rep.rule("R-DEADLINE", "the job record's deadline = monotonic() + timeout where the clock is read in the submit path and timeout is that call's parameter (the default for submit, the caller's for f_timeout); the record links the returned future and this submission's delegate future and is appended under the job lock")
+    rep.rule("R-PARTITION", "per iteration of the timeout thread and per job: finished -> dropped; cancel side only when deadline < now (<=) against an unmodified clock reading; cancel side and keep side exclusive; job list := keep side under the job lock; one cancel() per job of the cancel side, outside the lock")
+    rep.rule("R-SLEEP", "wait time = max(min(deadline of every kept job) - monotonic(), 0), None when no job is kept")
     rep.rule("R-WAKE-P", "appending a job is followed by set() of the timeout thread's event")
+    rep.rule("R-WAKE-L", "the timeout thread re-reads its job list between clear() of its event and the next wait(): a job submitted while it computes its sleep is not slept over")
     tex = prog.cls("TimeoutExecutor")
-    SELF = ("param", "self")
+    loops = [l for l in wake.discover(ctx) if l.owner is tex]
+    rep.require(len(loops) == 1, "TimeoutExecutor: worker loop not found")
+    li = loops[0]
+    rep.require(len(li.scanned) == 1, "TimeoutExecutor: expected exactly one scanned job list, found %s" % sorted(li.scanned))
+    JF = sorted(li.scanned)[0]
+
+    # ------------------------------------------------------------------ submit path
     st = tex.methods.get("submit_timeout")
-    rep.require(st is not None, "TimeoutExecutor.submit_timeout not found")
-    Job = prog.cls("Job")
-    ps, it = ctx.paths(st, tex, depth=1, inline=_none)
+    sm = tex.methods.get("submit")
+    rep.require(st is not None and sm is not None, "TimeoutExecutor.submit / submit_timeout not found")
+    ps, it = ctx.paths(st, tex, depth=DEPTH, inline=std_inline)
     T = ("param", st.params[1])
     n = 0
+    dl_field = fut_field = None
     for p in ps:
         if p.status != "return":
             continue
-        mk = [e for e in p.calls() if e.d["func"] == ("class", Job.key)]
-        rep.require(len(mk) == 1, "submit_timeout: expected one Job(...) per path")
+        apps = [e for e in p.calls() if q.call_name(e) in ("append", "add") and q.recv(e) == ("attr", SELF, JF)]
+        rep.ob("R-DEADLINE", "submit_timeout: one job record appended per submission", len(apps) == 1, "%d appends to the job list" % len(apps), where_of(st), trace_of(p))
+        if len(apps) != 1:
+            continue
         n += 1
-        a = list(mk[0].d["args"]) + [None] * 3
-        kw = dict((k, v) for k, v in mk[0].d["kwargs"] if k)
-        fields = dict(zip(Job.record_fields, a))
-        fields.update(kw)
-        dl = fields.get("deadline")
-        ok = isinstance(dl, tuple) and dl[0] == "bin" and dl[1] == "+" and ((is_clock(dl[2]) and dl[3] == T) or (is_clock(dl[3]) and dl[2] == T))
-        rep.ob("R-DEADLINE", "submit_timeout: deadline = now + this call's timeout", ok, "deadline = %s" % (fmt(dl) if dl else None), where_of(st, mk[0].node), trace_of(p))
+        job = apps[0].d["args"][0]
+        fields = dict((k[2], v) for k, v in p.heap.items() if k[0] == "attr" and k[1] == job)
         subs = [e for e in p.calls() if q.call_name(e) == "submit" and q.recv(e) == ("attr", SELF, "_delegate")]
-        ok = len(subs) == 1 and isinstance(fields.get("delegate_future"), tuple) and fields["delegate_future"][:2] == ("call", subs[0].d["func"]) and fields.get("future") == p.value
-        rep.ob("R-DEADLINE", "submit_timeout: the job links the returned future with this submission's delegate future", ok, "Job(future=%s, delegate_future=%s), returns %s" % (fmt(fields.get("future")) if fields.get("future") else None, fmt(fields.get("delegate_future")) if fields.get("delegate_future") else None, fmt(p.value)), where_of(st, mk[0].node))
-        apps = [e for e in p.calls() if q.call_name(e) == "append" and q.recv(e) == ("attr", SELF, "_jobs")]
-        newjob = [k for k, t in p.types.items() if t == "C:" + Job.key]
-        ok = len(apps) == 1 and apps[0].d["args"][0] in newjob and q.has_lock(apps[0], ("attr", SELF, "_jobs_lock"))
-        rep.ob("R-DEADLINE", "submit_timeout: the job is appended under the job lock", ok, "", where_of(st))
-    rep.require(n >= 1, "submit_timeout: no normal path")
-    sm = tex.methods.get("submit")
+        rep.ob("R-DEADLINE", "submit_timeout: exactly one delegate submit", len(subs) == 1, "", where_of(st), trace_of(p))
+        dls = [(f, v) for f, v in fields.items() if isinstance(v, tuple) and v[0] == "bin" and v[1] == "+" and (is_clock(v[2]) or is_clock(v[3]))]
+        ok = len(dls) == 1 and ((is_clock(dls[0][1][2]) and dls[0][1][3] == T) or (is_clock(dls[0][1][3]) and dls[0][1][2] == T))
+        rep.ob("R-DEADLINE", "submit_timeout: deadline = now + this call's timeout", ok, "record fields: %s" % dict((k, fmt(v)) for k, v in fields.items()), where_of(st), trace_of(p))
+        if dls:
+            dl_field = dls[0][0]
+        futs = [f for f, v in fields.items() if v == p.value]
+        rep.ob("R-DEADLINE", "submit_timeout: the record links the returned future with this submission's delegate future", len(futs) == 1 and _built_on(p, it, p.value, subs), "record fields: %s; returns %s" % (dict((k, fmt(v)) for k, v in fields.items()), fmt(p.value)), where_of(st), trace_of(p))
+        if futs:
+            fut_field = futs[0]
+        lk = [l for l in apps[0].locks if l[1][0] == "attr" and l[1][1] == SELF and l[1][2] != "_shutdown"]
+        rep.ob("R-DEADLINE", "submit_timeout: the job is appended under the job lock", bool(lk), "append without a lock of the executor held", where_of(apps[0].fn, apps[0].node))
+    rep.require(n >= 1 and dl_field and fut_field, "submit_timeout: job record / deadline / future field not identified")
     ps, it = ctx.paths(sm, tex, depth=0)
     for p in ps:
         c = [e for e in p.calls() if e.d["callee"] is st]
-        ok = len(c) == 1 and c[0].d["args"] == (("attr", SELF, "_timeout"), ("star", ("seq", (), ("param", sm.vararg), 0))) and tuple(c[0].d["kwargs"]) == ((None, ("kw", (), ("param", sm.kwarg))),)
-        rep.ob("R-DEADLINE", "submit uses the executor's default timeout and forwards the call", ok and p.value[:2] == ("call", c[0].d["func"]) if c else False, "", where_of(sm))
+        ok = len(c) == 1 and c[0].d["args"][:1] == (("attr", SELF, "_timeout"),) and c[0].d["args"][1:] == (("star", ("seq", (), ("param", sm.vararg), 0)),) and tuple(c[0].d["kwargs"]) == ((None, ("kw", (), ("param", sm.kwarg))),)
+        rep.ob("R-DEADLINE", "submit uses the executor's default timeout and forwards the call", ok and (p.value[:2] == ("call", c[0].d["func"]) if c else False), "", where_of(sm))
     init = tex.methods.get("__init__")
     ps, it = ctx.paths(init, tex, depth=0)
     for p in ps:
+        if p.status == "raise":
+            continue
         v = p.heap.get(("attr", SELF, "_timeout"))
         rep.ob("R-DEADLINE", "the default timeout is the constructor's timeout", v == ("param", "timeout"), "_timeout = %s" % (fmt(v) if v else None), where_of(init))
 
-    # ---- partition
-    pj = tex.methods.get("_partition_jobs")
-    ps, it = ctx.paths(pj, tex, depth=0)
+    # ------------------------------------------------------------------ the timeout thread, one iteration
+    ps, it = ctx.paths(li.target, li.target.owner, depth=DEPTH, inline=std_inline, maxpaths=20000)
+    X = li.exec_term
+    XJ = ("attr", X, JF)
     cases = set()
-    lists = {}
-    for p in ps:
-        if p.status != "return":
-            continue
-        v = p.value
-        rep.require(isinstance(v, tuple) and v[0] == "tuple" and len(v[1]) == 2, "_partition_jobs: expected a pair to be returned")
-        ret_a, ret_b = v[1]
-        job = None
-        for e in p.evs("loop"):
-            if e.d[0] == "enter":
-                rep.ob("R-PARTITION", "_partition_jobs walks the executor's job list", e.d[1] == ("attr", SELF, "_jobs"), "iterates %s" % fmt(e.d[1]), where_of(pj, e.node))
-        for b in p.evs("branch"):
-            t = b.d[0]
-            for s in subterms(t):
-                if s[0] == "elem":
-                    job = s
-        if job is None:
-            continue
-        done = None
-        over = None
-        for b in p.evs("branch"):
-            t, val = b.d
-            if isinstance(t, tuple) and t[0] == "call" and t[1] == ("attr", ("attr", job, "future"), "done"):
-                done = (val, b)
-            nc = norm_cmp(t, val)
-            if nc and (contains(nc[0], ("attr", job, "deadline")) or contains(nc[2], ("attr", job, "deadline"))):
-                over = (nc, b)
-        in_a = job in (ret_a[1] if ret_a[0] == "list" else ())
-        in_b = job in (ret_b[1] if ret_b[0] == "list" else ())
-        rep.ob("R-PARTITION", "a job lands in at most one list", not (in_a and in_b), "the same job is pending and overdue", where_of(pj), trace_of(p))
-        if done is not None and done[0]:
-            cases.add("done")
-            rep.ob("R-PARTITION", "a finished job is dropped", not in_a and not in_b, "a job whose future is done is kept in a list", where_of(pj), trace_of(p))
-            continue
-        rep.require(over is not None, "_partition_jobs: comparison of the deadline with the clock not found")
-        nc, b = over
-        DL = ("attr", job, "deadline")
-        plain = (nc[0] == DL and is_clock(nc[2])) or (nc[2] == DL and is_clock(nc[0]))
-        rep.ob("R-PARTITION", "the deadline is compared with an unmodified clock reading", plain, "the comparison is `%s %s %s`: any offset makes the cancel early or late" % (fmt(nc[0]), nc[1], fmt(nc[2])), where_of(pj, b.node), trace_of(p))
-        overdue = nc[0] == DL  # deadline < now  or deadline <= now
-        if overdue:
-            cases.add("overdue")
-            which = "b" if in_b else "a" if in_a else None
-            rep.ob("R-PARTITION", "an overdue job goes to the cancel list only", (in_a != in_b), "overdue job in %s lists" % ("both" if in_a and in_b else "no"), where_of(pj), trace_of(p))
-            lists["overdue"] = which
-        else:
-            cases.add("pending")
-            rep.ob("R-PARTITION", "a job kept as pending was found not done", done is not None and done[0] is False, "a job is kept without looking at job.future.done(): finished jobs would stay in the list until their deadline", where_of(pj), trace_of(p))
-            which = "b" if in_b else "a" if in_a else None
-            rep.ob("R-PARTITION", "a job before its deadline goes to the pending list only", (in_a != in_b), "pending job in %s lists" % ("both" if in_a and in_b else "no"), where_of(pj), trace_of(p))
-            lists["pending"] = which
-    rep.ob("R-PARTITION", "_partition_jobs: done / overdue / pending all present", cases == {"done", "overdue", "pending"}, "cases: %s" % sorted(cases), where_of(pj))
-    rep.ob("R-PARTITION", "_partition_jobs: overdue and pending are different lists", lists.get("overdue") != lists.get("pending") and None not in (lists.get("overdue"), lists.get("pending")), "%s" % lists, where_of(pj))
-    clocks = set()
-    for p in ps:
-        for e in p.calls():
-            if q.call_name(e) == "monotonic":
-                clocks.add(e.node.lineno)
-    rep.ob("R-PARTITION", "_partition_jobs reads the clock once for all jobs", len(clocks) == 1, "clock read at %d places" % len(clocks), where_of(pj))
-
-    # ---- loop iteration
-    li = tex.methods.get("_job_loop_iter")
-    ps, it = ctx.paths(li, tex, depth=1, inline=_only_partition_stub)
-    X = ("param", li.params[1])
-    pend_idx = 0 if lists.get("pending") == "a" else 1
     niter = 0
     for p in ps:
-        pc = [e for e in p.calls() if e.d["callee"] is pj]
-        if not pc:
+        if p.status not in ("loop", "return"):
+            continue
+        job = None
+        for b in p.evs("branch"):
+            for s in subterms(b.d[0]):
+                if s[0] == "elem" and s[1] == XJ:
+                    job = s
+        stores = [e for e in p.evs("store") if e.d["target"] == XJ]
+        cancels = [e for e in p.calls() if q.call_name(e) == "cancel" and isinstance(q.recv(e), tuple) and q.recv(e)[0] == "attr" and q.recv(e)[2] == fut_field]
+        waits = [e for e in p.calls() if q.call_name(e) == "wait" and it.type_of(q.recv(e), p) == "E:Event"]
+        if not stores:
             continue
         niter += 1
-        res = ("call", pc[0].d["func"], pc[0].d["args"], pc[0].d["kwargs"], None)
-        PEND = ("unpack", res, pend_idx)
-        OVER = ("unpack", res, 1 - pend_idx)
-        JL = ("attr", X, "_jobs_lock")
-        rep.ob("R-PARTITION", "_job_loop_iter: the partition is computed under the job lock", q.has_lock(pc[0], JL), "", where_of(li, pc[0].node))
-        sj = [e for e in p.evs("store") if e.d["target"] == ("attr", X, "_jobs")]
-        rep.ob("R-PARTITION", "_job_loop_iter: the job list becomes exactly the pending part (same lock hold)", len(sj) == 1 and sj[0].d["value"] == PEND and q.has_lock(sj[0], JL), "_jobs := %s" % ([fmt(e.d["value"]) for e in sj]), where_of(li), trace_of(p))
-        loops = [e for e in p.evs("loop") if e.d[0] == "enter" and e.fn is li]
-        cancels = [e for e in p.calls() if e.d["callee"] is not None and e.d["callee"].name == "_do_cancel"]
-        rep.ob("R-PARTITION", "_job_loop_iter: the cancel loop walks exactly the overdue part", any(l.d[1] == OVER for l in loops), "loops over %s" % [fmt(l.d[1]) for l in loops], where_of(li), trace_of(p))
-        for c in cancels:
-            a0 = c.d["args"][0]
-            rep.ob("R-PARTITION", "_job_loop_iter: one cancel attempt per overdue job, outside the job lock", isinstance(a0, tuple) and a0[0] == "elem" and a0[1] == OVER and not q.has_lock(c, JL), "", where_of(li, c.node), trace_of(p, c.seq))
-        # sleep
-        v = p.value
-        rep.require(isinstance(v, tuple) and v[0] == "tuple" and len(v[1]) == 2, "_job_loop_iter: expected (event, wait_time)")
-        ev_, wt = v[1]
-        rep.ob("R-SLEEP", "_job_loop_iter returns the executor's own event", ev_ == ("attr", X, "_jobs_write"), "returns %s" % fmt(ev_), where_of(li))
-        has_pending = p.assume.get(PEND)
-        if has_pending is False:
-            rep.ob("R-SLEEP", "nothing pending -> wait without bound", wt == ("const", None), "wait time %s" % fmt(wt), where_of(li), trace_of(p))
-        elif has_pending is True:
-            ok = False
-            if isinstance(wt, tuple) and wt[0] == "call" and wt[1] == ("name", "max") and len(wt[2]) == 2 and not wt[3]:
-                args = list(wt[2])
-                zero = [a for a in args if a == ("const", 0)]
-                diff = [a for a in args if a != ("const", 0)]
-                if len(zero) == 1 and len(diff) == 1 and diff[0][0] == "bin" and diff[0][1] == "-" and is_clock(diff[0][3]):
-                    m = diff[0][2]
-                    if isinstance(m, tuple) and m[0] == "call" and m[1] == ("name", "min") and len(m[2]) == 1:
-                        c = m[2][0]
-                        ok = isinstance(c, tuple) and c[0] == "comp" and c[3] == (PEND,) and not c[4] and len(c[2]) == 1 and c[2][0][0] == "attr" and c[2][0][2] == "deadline" and c[2][0][1][0] == "elem"
-            rep.ob("R-SLEEP", "pending jobs -> wait max(min(pending deadlines) - now, 0)", ok, "wait time %s" % fmt(wt), where_of(li), trace_of(p))
-    rep.require(niter >= 2, "_job_loop_iter: working iterations not found")
-    dc = tex.methods.get("_do_cancel")
-    ps, it = ctx.paths(dc, tex, depth=0)
+        s0 = stores[0]
+        keep = s0.d["value"]
+        lk = [l for l in s0.locks if l[1][0] == "attr" and l[1][1] == X]
+        rep.ob("R-PARTITION", "loop: the job list is replaced under the job lock", bool(lk) and len(stores) == 1, "%d stores to the job list, lock held: %s" % (len(stores), bool(lk)), where_of(s0.fn, s0.node), trace_of(p, s0.seq))
+        clocks = [e for e in p.calls() if q.call_name(e) == "monotonic" and e.seq < s0.seq]
+        if job is None:
+            continue
+        done = over = None
+        for b in p.evs("branch"):
+            t, val = b.d
+            if isinstance(t, tuple) and t[0] == "call" and t[1] == ("attr", ("attr", job, fut_field), "done"):
+                done = (val, b)
+            nc = norm_cmp(t, val)
+            if nc and (contains(nc[0], ("attr", job, dl_field)) or contains(nc[2], ("attr", job, dl_field))):
+                over = (nc, b)
+        kept = _contains_elem(keep, job)
+        cancelled = [e for e in cancels if q.recv(e) == ("attr", job, fut_field)]
+        if done is not None and done[0]:
+            cases.add("done")
+            rep.ob("R-PARTITION", "loop: a finished job is dropped (not kept, not cancelled)", not kept and not cancelled, "a job whose future is done is %s" % ("kept" if kept else "cancelled"), where_of(li.target), trace_of(p))
+            continue
+        if over is None:
+            rep.ob("R-PARTITION", "loop: every unfinished job is compared with the clock", False, "a job is %s without looking at its deadline" % ("kept" if kept else "dropped"), where_of(li.target), trace_of(p))
+            continue
+        nc, b = over
+        DL = ("attr", job, dl_field)
+        plain = (nc[0] == DL and is_clock(nc[2])) or (nc[2] == DL and is_clock(nc[0]))
+        rep.ob("R-PARTITION", "loop: the deadline is compared with an unmodified clock reading", plain, "the comparison is `%s %s %s`: any offset makes the cancel early or late" % (fmt(nc[0]), nc[1], fmt(nc[2])), where_of(b.fn, b.node), trace_of(p, b.seq))
+        overdue = nc[0] == DL
+        if overdue:
+            cases.add("overdue")
+            rep.ob("R-PARTITION", "loop: an overdue job is cancelled exactly once and not kept", len(cancelled) == 1 and not kept, "overdue job: %d cancel attempts, kept: %s" % (len(cancelled), kept), where_of(li.target), trace_of(p))
+            for c in cancelled:
+                rep.ob("R-PARTITION", "loop: the cancel attempt runs outside the job lock", not [l for l in c.locks if l in lk], "", where_of(c.fn, c.node), trace_of(p, c.seq))
+        else:
+            cases.add("pending")
+            rep.ob("R-PARTITION", "loop: a job before its deadline is kept and not cancelled", kept and not cancelled, "pending job: kept %s, cancel attempts %d" % (kept, len(cancelled)), where_of(li.target), trace_of(p))
+            rep.ob("R-PARTITION", "loop: a job kept was found not done", done is not None and done[0] is False, "a job is kept without looking at its future's done(): finished jobs would stay in the list until their deadline", where_of(li.target), trace_of(p))
+            for w in waits:
+                wt = w.d["args"][0] if w.d["args"] else ("const", None)
+                rep.ob("R-SLEEP", "loop: with kept jobs the wait is max(min(kept deadlines) - now, 0)", _sleep_ok(wt, keep, dl_field), "wait(%s)" % fmt(wt), where_of(w.fn, w.node), trace_of(p, w.seq))
+        rep.ob("R-PARTITION", "loop: the clock is read once per iteration for the partition", len(set(e.node.lineno for e in clocks)) == 1, "clock read at %d places before the list is replaced" % len(set(e.node.lineno for e in clocks)), where_of(li.target))
     for p in ps:
-        cs = [e for e in p.calls() if q.call_name(e) == "cancel"]
-        rep.ob("R-PARTITION", "_do_cancel: exactly one cancel() on the job's (outer) future", len(cs) == 1 and q.recv(cs[0]) == ("attr", ("param", dc.params[1]), "future"), "cancel calls: %s" % [fmt(e.d["func"]) for e in cs], where_of(dc))
+        stores = [e for e in p.evs("store") if e.d["target"] == XJ]
+        waits = [e for e in p.calls() if q.call_name(e) == "wait" and it.type_of(q.recv(e), p) == "E:Event"]
+        if stores and waits and q.truth_of(p, stores[0].d["value"]) is False:
+            wt = waits[0].d["args"][0] if waits[0].d["args"] else ("const", None)
+            rep.ob("R-SLEEP", "loop: nothing kept -> wait without bound", wt == ("const", None), "wait(%s) although no job is pending" % fmt(wt), where_of(waits[0].fn, waits[0].node), trace_of(p))
+    rep.ob("R-PARTITION", "loop: done / overdue / pending all present", cases == {"done", "overdue", "pending"}, "cases: %s" % sorted(cases), where_of(li.target))
+    rep.require(niter >= 2, "timeout thread: working iterations not found")
 
-    # ---- wake-up and f_timeout
-    loops = [l for l in wake.discover(ctx) if l.owner is tex]
+    # ------------------------------------------------------------------ wake-ups, f_timeout
     wake.check_producers(ctx, rep, loops)
-    rep.rule("R-WAKE-L", "the timeout thread re-reads its job list between clear() of its event and the next wait(): a job submitted while it computes its sleep is not slept over")
     wake.check_loops(ctx, rep, loops, components="state")
     ft = prog.fn("futures.timeout:f_timeout")
     ps, it = ctx.paths(ft, None, depth=0)
@@ -195,17 +170,63 @@ def check(ctx, rep):
         if p.status != "return":
             continue
         c = [e for e in p.calls() if q.call_name(e) == "submit_timeout"]
-        ok = len(c) == 1 and len(c[0].d["args"]) == 2 and c[0].d["args"][0] == ("param", ft.params[1]) and c[0].d["args"][1][0] == "closure"
+        ok = len(c) == 1 and len(c[0].d["args"]) == 2 and c[0].d["args"][0] == ("param", ft.params[1])
         if ok:
-            sub = it.closures[c[0].d["args"][1][2]][0]
-            ps2, _ = ctx.paths(sub, None, depth=0)
-            ok = not sub.params and all(p2.status == "return" and q.term_name(p2.value) == ft.params[0] for p2 in ps2)
+            a1 = c[0].d["args"][1]
+            sub = closure_fn(a1) or (prog.functions.get(a1[1]) if isinstance(a1, tuple) and a1[0] == "func" else None)
+            ok = False
+            if sub is not None:
+                ps2, _ = ctx.paths(sub, None, depth=0)
+                ok = not sub.params and all(p2.status == "return" and q.term_name(p2.value) == ft.params[0] for p2 in ps2)
         rep.ob("R-DEADLINE", "f_timeout routes through submit_timeout with the caller's timeout and the caller's future", ok, "", where_of(ft))
 
 
-def _none(callee, ev, path):
+def _built_on(p, it, v, subs):
+    """the returned future is constructed on the result of the delegate submit"""
+    if not subs:
+        return False
+    pre = ("call", subs[0].d["func"])
+    if isinstance(v, tuple) and v[0] == "new":
+        for c in p.calls():
+            if c.d["func"] == ("class", v[1]) and it.site(c.node) == v[2]:
+                vals = list(c.d["args"]) + [x for k, x in c.d["kwargs"]]
+                if any(isinstance(a, tuple) and a[:2] == pre for a in vals):
+                    return True
+    return isinstance(v, tuple) and v[:2] == pre
+
+
+def _contains_elem(keep, job):
+    """is `job` put on the collection `keep` (a list literal built in this iteration)"""
+    if isinstance(keep, tuple) and keep[0] in ("list", "tuple"):
+        return job in keep[1]
+    if isinstance(keep, tuple) and keep[0] == "unpack":
+        inner = keep[1]
+        if isinstance(inner, tuple) and inner[0] == "tuple" and keep[2] < len(inner[1]):
+            return _contains_elem(inner[1][keep[2]], job)
+    if isinstance(keep, tuple) and keep[0] == "bin" and keep[1] == "+":
+        return _contains_elem(keep[2], job) or _contains_elem(keep[3], job)
     return False
 
 
-def _only_partition_stub(callee, ev, path):
+def _sleep_ok(wt, keep, dl_field):
+    if not (isinstance(wt, tuple) and wt[0] == "call" and wt[1] == ("name", "max") and len(wt[2]) == 2 and not wt[3]):
+        return False
+    args = list(wt[2])
+    zero = [a for a in args if a == ("const", 0)]
+    diff = [a for a in args if a != ("const", 0)]
+    if len(zero) != 1 or len(diff) != 1:
+        return False
+    d = diff[0]
+    if not (isinstance(d, tuple) and d[0] == "bin" and d[1] == "-" and is_clock(d[3])):
+        return False
+    m = d[2]
+    if not (isinstance(m, tuple) and m[0] == "call" and m[1] == ("name", "min") and not m[3]):
+        return False
+    if len(m[2]) == 1:
+        c = m[2][0]
+        if isinstance(c, tuple) and c[0] == "comp" and not c[4] and len(c[2]) == 1 and len(c[3]) == 1:
+            e = c[2][0]
+            return isinstance(e, tuple) and e[0] == "attr" and e[2] == dl_field and e[1][0] == "elem" and c[3][0] == keep
+        if isinstance(c, tuple) and c[0] == "list":
+            return all(isinstance(e, tuple) and e[0] == "attr" and e[2] == dl_field for e in c[1]) and len(c[1]) >= 1
     return False
